@@ -40,7 +40,12 @@ def tree_source(rng, uid):
     if nreg:
       # some registers are written through a helper function called from the update_ff block
       via = [i for i in range(nreg) if rng.random() < 0.3]
-      for i in via: lines += ['    @s.func', f'    def bump{i}():', f'      s.r{i} <<= s.r{i} + {i + 1}']
+      for i in via:
+        if rng.random() < 0.5:        # the write sits in a helper that is only reached through another helper
+          lines += ['    @s.func', f'    def inner{i}():', f'      s.r{i} <<= s.r{i} + {i + 1}',
+                    '    @s.func', f'    def bump{i}():', f'      inner{i}()']
+        else:
+          lines += ['    @s.func', f'    def bump{i}():', f'      s.r{i} <<= s.r{i} + {i + 1}']
       lines += ['    @update_ff', '    def ff():']
       for i in range(nreg): lines.append(f'      bump{i}()' if i in via else f'      s.r{i} <<= s.r{i} + {i + 1}')
     srcs = [f's.r{i}' for i in range(nreg)] + [f's.k{j}.o' for j in range(len(kids))]
